@@ -209,6 +209,11 @@ func c09Scenarios(thorough bool) []*scenario {
 	add("ta/c09/exhaust-G3x3", machine8(), std, pods(tG3, tG3, tG3), menu{stop: true, remove: true, sync: true}, nil)
 	add("ta/c09/reconf-between-stop-and-remove", machine16(), []cfgSpec{taCfg("rsv750m"), taCfg("rsv2", taReserved("cpuset:0,8"))},
 		pods(tG2, tB500), menu{stop: true, remove: true, sync: true, reconf: []int{0, 1}}, nil)
+	// a reconfiguration that takes away the very CPUs exclusive grants sit on: the grants cannot be reinstated as they are
+	// and the policy falls back to re-allocating everything; whichever half the grant is in, one of the two shrunk sets hits it
+	add("ta/c09/reconf-removes-granted-cpus", machine16(),
+		[]cfgSpec{taCfg("rsv750m"), taCfg("avail-low", taAvailable("cpuset:0-7"), taReserved("cpuset:0")), taCfg("avail-high", taAvailable("cpuset:0,8-15"), taReserved("cpuset:0"))},
+		pods(tG2, tG2, tB500), menu{stop: true, remove: true, reconf: []int{0, 1, 2}}, nil)
 	add("ta/c09/restart", machine16(), std, pods(tG2, tB500, tBE), menu{stop: true, remove: true, restart: true}, nil)
 	add("ta/c09/recreate", machine16(), std, pods(tG2, tG1500), menu{stop: true, remove: true}, nil)
 	out[len(out)-1].maxInc = 2
@@ -396,6 +401,12 @@ func c04Scenarios(thorough bool) []*scenario {
 	add("ta/mem/4dram/M3G-M3G-M3G-BM6G", polTA, machine16(), std, pods(tM3G, tM3G, tM3G, tBM6G), lm)
 	add("ta/mem/pmem/M3G-M5G(pmem)-BM6G(pmem)", polTA, machinePMEM(), std,
 		[]podSpec{pod1("a", "default", "Guaranteed", tM3G, nil), pod1("b", "default", "Guaranteed", tM5G, pmemAnn), pod1("c", "default", "Burstable", tBM6G, pmemAnn)}, lm)
+	// cold start: a container that starts on PMEM only and is re-allocated to PMEM+DRAM when its cold-start period ends,
+	// next to containers that fill the DRAM it will be widened onto
+	coldAnn := map[string]string{annMemType: "dram,pmem", annColdStart: "duration: 60s"}
+	add("ta/mem/coldstart/M3G(cold)-M3G-BM3G(cold)", polTA, machinePMEM(), std,
+		[]podSpec{pod1("a", "default", "Guaranteed", tM3G, coldAnn), pod1("b", "default", "Guaranteed", tM3G, nil), pod1("c", "default", "Burstable", tBM3G, coldAnn)},
+		menu{start: true, coldDone: true, stop: true, remove: true})
 	add("ta/mem/hbm/M3G-M2G-G1M1G", polTA, machineHBM(), std, pods(tM3G, tM2G, tG1M1G), lm)
 	add("ta/mem/movable/M3G-M3G-BM3G", polTA, machineMovable(), std, pods(tM3G, tM3G, tBM3G), lm)
 	add("ta/mem/asym/M3G-M2G-M5G", polTA, machineAsym(), std, pods(tM3G, tM2G, tM5G), lm)
@@ -463,6 +474,12 @@ func c12Scenarios(thorough bool) []*scenario {
 	add("ta/optout/pinMemory-off", polTA, machine8(), []cfgSpec{taCfg("nomem", taPin(true, false))},
 		[]podSpec{pod1("p", "default", "Guaranteed", m3Pin8, nil), pod1("a", "default", "Guaranteed", tM3G, nil), pod1("b", "default", "Guaranteed", tM3G, nil)},
 		menu{stop: true, remove: true, sync: true, reconf: []int{0}}, nil)
+	// an opted-out container that also asks for a cold start: the end of the cold-start period re-allocates memory
+	m3PinP := &tmpl{name: "M3GpinP", cpuReq: 500, cpuLim: 500, memLim: 3 * giB, initCpus: "0,7", initMems: "1"}
+	add("ta/optout/mem+coldstart", polTA, machinePMEM(), std,
+		[]podSpec{pod1("p", "default", "Guaranteed", m3PinP, map[string]string{annPreserveMem + "/pod": "true", annMemType: "dram,pmem", annColdStart: "duration: 60s"}),
+			pod1("a", "default", "Guaranteed", tM3G, map[string]string{annMemType: "dram,pmem", annColdStart: "duration: 60s"}), pod1("b", "default", "Guaranteed", tM3G, nil)},
+		menu{start: true, coldDone: true, stop: true, remove: true}, nil)
 	// balloons
 	no := false
 	yes := true
@@ -855,6 +872,13 @@ func c16PoolCases(thorough bool) []*scenario {
 							func(s *sysgen.Spec) bool { return true },
 							func(s *sysgen.Spec) bool { s.Isolated = []int{ncpu - 1}; return ncpu > 2 },
 							func(s *sysgen.Spec) bool { s.Offline = []int{ncpu - 1}; return ncpu > 2 },
+							func(s *sysgen.Spec) bool {
+								// every CPU but the first is kernel-isolated: reservations given as a quantity run out of ordinary CPUs
+								for i := 1; i < ncpu; i++ {
+									s.Isolated = append(s.Isolated, i)
+								}
+								return ncpu > 2
+							},
 							func(s *sysgen.Spec) bool {
 								s.Extras = []sysgen.Extra{{MemKB: 16 << 20, CloseTo: []int{0}}}
 								return true
